@@ -141,6 +141,46 @@ theorem C14_repr_key_counterexample :
   simp only [ckeyEq, valLang, Bool.and_eq_true, beq_iff_eq] at h
   exact h.1
 
+/-! ### `KeyCongruent` for the `==` discipline, discharged for a concrete hint language -/
+
+/-- the checker a fresh interpreter builds for `(hint, conf/prefix tag)`: the set of objects it accepts -/
+def checkerOf (k : CKey Hint) : PyObj → Bool := sat k.1
+
+/-- **`==` keys are congruent** for class objects, `Literal`, `Union`, `list[…]`, `typing.List[…]`: hints that
+    `typing` calls equal (whatever the order of union members or literal values) accept the same objects, and
+    the look-alikes `Literal[1]`/`Literal[True]`, same-named distinct classes, `list[int]`/`typing.List[int]`
+    are different keys. -/
+theorem C14_eq_key_congruent : KeyCongruent checkerOf (ckeyEq hintLang) := by
+  intro k k' h
+  simp only [ckeyEq, hintLang, Bool.and_eq_true] at h
+  funext x
+  exact sat_congr k.1 k'.1 h.1 x
+
+/-- … hence, with the repaired coercion, EVERY history over that language leaves every answer what a fresh
+    interpreter gives — no hypothesis left. -/
+theorem C14_concrete_hints_invisible (hist : List (Op (CKey Hint))) (q : CKey Hint) (x : PyObj) :
+    answerB hintLang true checkerOf (runB hintLang true checkerOf hist) q x = sat q.1 x := by
+  rw [C14_checker_pipeline_invisible hintLang checkerOf C14_eq_key_congruent hist q]
+  rfl
+
+/-- F-C14a in the concrete language: `is_bearable([Foo₁()], list[Foo₁])` then `is_bearable([Foo₂()], list[Foo₂])`
+    with the coercion as found is `False`; `True` with the repaired one and in a fresh interpreter. -/
+example :
+    let foo1 := Hint.list585 (.atom (.cls "Foo" 1))
+    let foo2 := Hint.list585 (.atom (.cls "Foo" 2))
+    answerB hintLang false checkerOf (runB hintLang false checkerOf [.query (foo1, 0)]) (foo2, 0) (.list [.inst 2]) = false ∧
+    answerB hintLang true checkerOf (runB hintLang true checkerOf [.query (foo1, 0)]) (foo2, 0) (.list [.inst 2]) = true ∧
+    sat foo2 (.list [.inst 2]) = true ∧ hintEq foo1 foo2 = false ∧ hintRepr foo1 = hintRepr foo2 := by
+  decide
+
+/-- look-alikes: `Union[int-ish, str-ish]` in both orders are ONE key, `Literal[1]` and `Literal[True]` are two -/
+example :
+    hintEq (.union [.cls "A" 1, .cls "B" 2]) (.union [.cls "B" 2, .cls "A" 1]) = true ∧
+    hintEq (.atom (.lit [.int 1])) (.atom (.lit [.bool true])) = false ∧
+    hintEq (.atom (.lit [.int 1, .int 2])) (.atom (.lit [.int 2, .int 1])) = true ∧
+    hintEq (.list585 (.atom (.cls "A" 1))) (.list484 (.atom (.cls "A" 1))) = false := by
+  decide
+
 /-! ### `id`-keyed memoisation (`method_cached_arg_by_id`: `TypeHint.is_subhint`, `TypeHint.__eq__`) -/
 
 /-- **With the repaired decorator** (an entry keeps the two objects it was computed for alive) the answer
